@@ -50,13 +50,17 @@ def _local_simplification(a: ast.Lambda) -> ast.Lambda:
 def _same_value(a: Any, b: Any) -> bool:
     """Equal, and of the same types all the way down (1, True and 1.0 compare equal but are not
     the same value - nor are `[1]` and `[True]`)."""
+    if a is b:
+        return True
     if type(a) is not type(b) or a != b:
         return False
     if isinstance(a, (list, tuple)):
         return all(_same_value(x, y) for x, y in zip(a, b))
+    if isinstance(a, (set, frozenset)):
+        return all(any(_same_value(x, y) for y in b) for x in a)
     if isinstance(a, dict):
         return all(
-            any(type(k) is type(k_b) and k == k_b and _same_value(v, v_b) for k_b, v_b in b.items())
+            any(_same_value(k, k_b) and _same_value(v, v_b) for k_b, v_b in b.items())
             for k, v in a.items()
         )
     return True
